@@ -698,7 +698,7 @@ def run(ctx):
                             got = float(r["out"].strip())
                         except ValueError:
                             got = None
-                        tol = max(1e-9, 0.6 * 10.0 ** (-(max(prec or 6, 1) - 1)))
+                        tol = max(1e-9, 0.6 * 10.0 ** (-(max(prec if prec is not None else 6, 1) - 1)))
                         if r["rc"] != 0 or got is None or abs(got - float(q)) > tol * abs(float(q)):
                             viol.append((dict(kind="table-not-effective"),
                                          "C19 fails: '1 usd to gbp' gives %r (status %r), the table that should be in use gives %s (currency %r, config %r)"
